@@ -12,21 +12,21 @@ CHECKS = {
  "C02": ("model_checking", "TLA+ contracts (exact dyadic arithmetic) + TLC trace validation of recorded executions; exhaustive small-format TLC model of the 2Sum/2Prod transcriptions",
          "Exactness of new_add/new_sub/new_mul, the new_div tolerance and from_f64 are decided in exact limb arithmetic on every recorded call of the real crate (directed pairs: equal/opposite, subnormal, 1000+ binades apart, products at the 2^-960 / 2^1023 edges); the error-free transformations are additionally enumerated over all operand pairs of small formats." + LEGA),
  "C03": ("exploration", "TLA+ contracts + TLC trace validation of recorded executions (exact dyadic oracle)",
-         "The 3u^2+13u^3 / 2u^2 bounds are integer inequalities over exact values, evaluated by TLC on every recorded +,-,+=,-= call (all pairings and spellings) of directed operands: cancellation at every depth, ties, powers of two, far-apart exponents, results fed back. A worst-case bound over 2^256 operand pairs cannot be enumerated at binary64: exploration." + LEGA),
+         "The 3u^2+13u^3 / 2u^2 bounds are integer inequalities over exact values, evaluated by TLC on every recorded +,-,+=,-= call (all pairings and spellings) of directed operands: cancellation at every depth, ties, powers of two, far-apart exponents, results fed back. A worst-case bound over 2^256 operand pairs cannot be enumerated at binary64: exploration. The lattice families (harness/src/gen5.rs) additionally enumerate the exhaustive product of structural operand classes at binary64 (significand shapes x low-word classes of both operands x ulp offsets / exponent differences x spellings), sliced." + LEGA),
  "C04": ("exploration", "TLA+ contracts + TLC trace validation of recorded executions (exact dyadic oracle)",
-         "5u^2 / 2u^2 bounds, zero/unit/power-of-two exactness clauses decided exactly on every recorded multiplication." + LEGA),
+         "5u^2 / 2u^2 bounds, zero/unit/power-of-two exactness clauses decided exactly on every recorded multiplication. The lattice families (harness/src/gen5.rs) additionally enumerate the exhaustive product of structural operand classes at binary64 (significand shapes x low-word classes of both operands x ulp offsets / exponent differences x spellings), sliced." + LEGA),
  "C05": ("exploration", "TLA+ contracts + TLC trace validation of recorded executions (exact dyadic oracle)",
-         "3u^2 / 16u^2 bounds by cross-multiplication, a/a = 1, unit and power-of-two divisors, recip == 1.0/x via the determinism memo." + LEGA),
+         "3u^2 / 16u^2 bounds by cross-multiplication, a/a = 1, unit and power-of-two divisors, recip == 1.0/x via the determinism memo. The lattice families (harness/src/gen5.rs) additionally enumerate the exhaustive product of structural operand classes at binary64 (significand shapes x low-word classes of both operands x ulp offsets / exponent differences x spellings), sliced." + LEGA),
  "C19": ("exploration", "TLA+ contracts + TLC trace validation of recorded executions (exact dyadic oracle)",
          "truncated / floored quotient semantics decided with exact big-integer division in TLA+ on every recorded %, %=, div_euclid, rem_euclid call (integer, near-integer, tiny and huge quotients, all sign combinations)." + LEGA),
  "C01": ("model_checking", "TLA+ state machine with the Normalised clause on every TwoFloat-producing action + TLC trace validation of random programs recorded from the real crate; exhaustive small-format TLC models of the transcribed algorithms",
          "Normalised (valid or non-finite high word) is evaluated by the spec's own RN after every call of random 50-200-call programs with results fed back, of the directed arithmetic/conversion/rounding corpora, of 128-bit integer conversions aimed at the tie-beside-odd pattern, and of programs mixing arithmetic with every mathematical function whose results are steered through the gradual-underflow and near-overflow zones (prog_elem)." + LEGA),
  "C06": ("model_checking", "TLA+ contracts (exact comparison of values) + TLC trace validation; relational checks through the determinism memo",
-         "Every comparison operator in every pairing and both argument orders is checked against the exact three-way comparison of the values on related operand pairs (same high word, one low-word ulp apart, sign of zero), f64 comparands incl. infinities/NaN, and NaN-bearing values reachable through the API." + LEGA),
+         "Every comparison operator in every pairing and both argument orders is checked against the exact three-way comparison of the values on related operand pairs (same high word, one low-word ulp apart, sign of zero), f64 comparands incl. infinities/NaN, and NaN-bearing values reachable through the API. The lattice families (harness/src/gen5.rs) additionally enumerate the exhaustive product of structural operand classes at binary64 (significand shapes x low-word classes of both operands x ulp offsets / exponent differences x spellings), sliced." + LEGA),
  "C07": ("model_checking", "TLA+ definition RN(a+b)=a evaluated by the spec's own RN + TLC trace validation over the complete structural grid",
          "no_overlap / is_valid / TryFrom are compared with Definition 1.4 computed by the specification on the complete structural grid of the bit-level algorithm (every exponent field x significand classes x thresholds x signs) and on random bit patterns." + LEGA),
  "C08": ("model_checking", "TLA+ contracts (exact integer arithmetic on limbs) + TLC trace validation; exhaustive small-format model of the case split",
-         "floor/ceil/trunc/round/fract results must equal the exact functions of the exact value, on directed values covering every branch of the case split (fraction in hi / in lo / in both / nowhere, halves, signs)." + LEGA),
+         "floor/ceil/trunc/round/fract results must equal the exact functions of the exact value, on directed values covering every branch of the case split (fraction in hi / in lo / in both / nowhere, halves, signs). The lattice families (harness/src/gen5.rs) additionally enumerate the exhaustive product of structural operand classes at binary64 (significand shapes x low-word classes of both operands x ulp offsets / exponent differences x spellings), sliced." + LEGA),
  "C09": ("model_checking", "TLA+ contracts (big-integer ranges, exact truncation) + TLC trace validation; exhaustive for the 8/16-bit types",
          "From<int> is validated for every value of i8/u8/i16/u16 and on boundary-dense / tie-targeted 32-128-bit values; TryFrom at +-1 low-word ulp of every type's bounds; float conversions against the spec's RN at binary32." + LEGA),
  "C10": ("model_checking", "determinism memo of the TLA+ machine (one key per operation and operand words) + TLC trace validation of every spelling",
